@@ -192,7 +192,8 @@ func (s *Stream) SetReadDeadline(deadline time.Time) error {
 				s.readTimeoutCancel = nil
 				s.lock.Unlock()
 
-				s.readNotifier.Signal()
+				// the deadline applies to every reader blocked on the stream
+				s.readNotifier.Broadcast()
 			}
 		}(s.readTimeoutCancel)
 	}
